@@ -102,6 +102,12 @@ class Sim:
                 elif kind == "leaf":
                     rel = eng.make_leaf(set(), iteration.RowSequence([]), name_prefix=prefix)
                     name = rel.name
+                elif kind == "leafshared":
+                    # several leaves over one payload object (partitions / views of one in-memory table)
+                    rel = eng.make_leaf(set(), self.shared_payload, name_prefix=prefix)
+                    name = rel.name
+                elif kind in ("sqlleaf", "sqlmat", "sqlmat_marked"):
+                    name = self.sql_request(kind, prefix)
                 else:
                     rel = leaves[ei % len(leaves)].with_rows_satisfying(_false_pred()).materialized(name_prefix=prefix)
                     name = rel.name
@@ -122,8 +128,30 @@ class Sim:
             else:
                 self.main_sem.release()
 
+    def sql_request(self, kind, prefix):
+        from lsst.daf.relation import Materialization, sql
+
+        if kind == "sqlleaf":
+            rel = self.sql_engine.make_leaf(set(), self.sql_payload, name_prefix=prefix)
+            while not hasattr(rel, "name"):
+                rel = rel.target
+            return rel.name
+        base = self.sql_base.with_rows_satisfying(_false_pred())
+        if kind == "sqlmat_marked":
+            base = _marker_class()(target=base)
+        rel = base.materialized(name_prefix=prefix)
+        while not isinstance(rel, Materialization):
+            rel = rel.target
+        return rel.name
+
     def run(self):
-        from lsst.daf.relation import iteration
+        from lsst.daf.relation import iteration, sql
+        import sqlalchemy
+
+        self.shared_payload = iteration.RowSequence([])
+        self.sql_engine = sql.Engine(name="s0")
+        self.sql_payload = sql.Payload(sqlalchemy.table("t"))
+        self.sql_base = self.sql_engine.make_leaf(set(), self.sql_payload, name="sqlbase")
 
         orig_uuid, orig_time, orig_ns, orig_mono = uuid.uuid4, time.time, time.time_ns, time.monotonic
         urng = self.urng
@@ -179,6 +207,26 @@ class Sim:
         return hashlib.sha256(json.dumps([self.events, self.history], default=str).encode()).hexdigest()
 
 
+_MARKER = None
+
+
+def _marker_class():
+    """A user-defined MarkerRelation subclass (the documented extension point)."""
+    global _MARKER
+    if _MARKER is None:
+        import dataclasses
+
+        from lsst.daf.relation import MarkerRelation
+
+        @dataclasses.dataclass(frozen=True)
+        class UserMarker(MarkerRelation):
+            def __str__(self):
+                return f"user({self.target})"
+
+        _MARKER = UserMarker
+    return _MARKER
+
+
 def _false_pred():
     from lsst.daf.relation import Predicate
 
@@ -195,6 +243,8 @@ def gen_scenario(base_seed, idx, tier):
         reqs = []
         for _ in range(nreq):
             kind = rng.choice(["getname", "getname", "leaf", "mat"])
+            if rng.random() < 0.25:
+                kind = rng.choice(["leafshared", "leafshared", "sqlleaf", "sqlmat", "sqlmat_marked"])
             prefix = rng.choice(PREFIXES[:2]) if rng.random() < 0.7 else rng.choice(PREFIXES)
             reqs.append([kind, rng.randrange(engines), prefix])
         threads.append(reqs)
